@@ -16,7 +16,7 @@ func TestC14Debug(t *testing.T) {
 	if os.Getenv("C14_DEBUG") == "3h" {
 		h = 3 * time.Hour
 	}
-	for _, cb := range combos(false) {
+	for _, cb := range combos() {
 		t0 := time.Now()
 		res := runOnce(t, scenario{Cfg: cb.cfg, Pattern: cb.pat, Horizon: h})
 		fmt.Printf("== %s %s: %d tx, outcome %s, c2p=%d p2c=%d, wall %v harness=%q\n", cb.cfg.Name, cb.pat, len(res.Txs), res.Outcome, res.SentC2P, res.SentP2C, time.Since(t0), res.Harness)
